@@ -73,6 +73,8 @@ def case_strategy():
             # (attribute values as text children and the other way round)
             # ... or earlier renderings in this process raised half way (inside raw-text and ordinary elements)
             "prior": st.sampled_from([False, False, "roles", "failed", "both"]),
+            # some children occur again later in the same child list as the very same object
+            "share": st.one_of(st.just(0), st.just(0), st.integers(1, 10**6)),
             "edits": st.lists(
                 st.one_of(
                     st.tuples(st.sampled_from(["pop", "del", "popitem", "clear"]), st.integers(0, 5)).map(list),
@@ -226,7 +228,14 @@ def body_tree(case, note):
             else:
                 htmltools.Tag("p", title=v).get_html_string()
                 htmltools.html_escape(v, attr=True)
-    objs = [build(r) for r in roots]
+    if prior in ("failed", "both"):
+        from hv.history import failed_operations
+
+        failed_operations(indent, eol, key=case["roots"])
+    if case.get("share"):
+        roots = gen.share_some(roots, case["share"])
+    memo: dict = {}
+    objs = [build(r, memo) for r in roots]
     exp_each = []
     for r, o in zip(roots, objs):
         ev = []
@@ -287,6 +296,7 @@ def body_tree(case, note):
         "re-rendered-after-edit" if edited else "",
         "strings-rendered-earlier-in-the-other-role" if prior in ("roles", "both") and (ma or mt) else "",
         "earlier-rendering-raised" if prior in ("failed", "both") and mt else "",
+        "same-object-twice" if memo else "",
     )
 
 
@@ -424,7 +434,7 @@ CLAUSES = [
         quick=1500,
         thorough=20000,
         shards_quick=4,
-        required=("void", "attr-metachar", "text-metachar", "depth>=3", "re-rendered-after-edit", "strings-rendered-earlier-in-the-other-role", "earlier-rendering-raised"),
+        required=("void", "attr-metachar", "text-metachar", "depth>=3", "re-rendered-after-edit", "strings-rendered-earlier-in-the-other-role", "earlier-rendering-raised", "same-object-twice"),
         rule="see RULE",
         fuzz=100000,
     ),
